@@ -177,7 +177,7 @@ def impl(case):
                     s = vd.Spline(mindist=md)
                     s.force_coords_ = (np.array(fe), np.array(fn_))
                     s.force_ = np.array(forces)
-                    r = s.predict((C.mkarr(oe, shape2d, case["op"]), C.mkarr(on, shape2d, case["op"])))
+                    r = s.predict((C.mkarr(oe, shape2d, "oe:" + case["op"]), C.mkarr(on, shape2d, "on:" + case["op"])))
                     if list(r.shape) != list(shape2d):
                         raise RuntimeError("wrong output shape")
                     return r.ravel().tolist()
@@ -188,7 +188,7 @@ def impl(case):
                     oe, on, shape2d, fe, fn_, md, nu, f_e, f_n = a
                     v = vd.VectorSpline2D(poisson=nu, mindist=md, force_coords=(np.array(fe), np.array(fn_)))
                     v.force_ = np.array(list(f_e) + list(f_n))
-                    r = v.predict((C.mkarr(oe, shape2d, case["op"]), C.mkarr(on, shape2d, case["op"])))
+                    r = v.predict((C.mkarr(oe, shape2d, "oe:" + case["op"]), C.mkarr(on, shape2d, "on:" + case["op"])))
                     if any(list(c.shape) != list(shape2d) for c in r):
                         raise RuntimeError("wrong output shape")
                     return [r[0].ravel().tolist(), r[1].ravel().tolist()]
@@ -196,7 +196,7 @@ def impl(case):
                     es, ns, shape2d, deg, coef = a
                     t = vd.Trend(deg)
                     t.coef_ = np.array(coef)
-                    r = t.predict((C.mkarr(es, shape2d, case["op"]), C.mkarr(ns, shape2d, case["op"])))
+                    r = t.predict((C.mkarr(es, shape2d, "es:" + case["op"]), C.mkarr(ns, shape2d, "ns:" + case["op"])))
                     jac = t.jacobian((np.array(es), np.array(ns)))
                     if list(r.shape) != list(shape2d) or jac.shape[1] != (deg + 1) * (deg + 2) // 2:
                         raise RuntimeError("wrong output shape / number of monomials")
@@ -206,7 +206,7 @@ def impl(case):
                 if fn == "checker":
                     region, amp, we, wn, es, ns, shape2d = a
                     c = vd.synthetic.CheckerBoard(amplitude=amp, region=tuple(region), w_east=we, w_north=wn)
-                    return c.predict((C.mkarr(es, shape2d, case["op"]), C.mkarr(ns, shape2d, case["op"]))).ravel().tolist()
+                    return c.predict((C.mkarr(es, shape2d, "es:" + case["op"]), C.mkarr(ns, shape2d, "ns:" + case["op"]))).ravel().tolist()
                 if fn == "scipy":
                     which, rescale, es, ns, d, qe, qn = a
                     cls, ref = (vd.Linear, LinearNDInterpolator) if which == "linear" else (vd.Cubic, CloughTocher2DInterpolator)
